@@ -62,6 +62,151 @@ def r1(ctx):
             ctx.ob("R1", k in rp, "splitting with a supplied dialect consults its %r" % k, node=prov, func=sk,
                    sig="provided-dialect split reads %r" % k if k in rp else "provided-dialect split ignores %r" % k)
     ctx.ob("R1", not w_rc, "reconstruction does not modify the dialect", func=rc, sig="_reconstruct writes %s" % sorted(w_rc))
+    no_dialect_mutation(ctx, rc, "R1")
+
+
+MUTATORS = {"append", "extend", "update", "pop", "popitem", "sort", "clear", "setdefault", "remove", "insert", "reverse"}
+
+
+def no_dialect_mutation(ctx, rc, rule):
+    """Printing must not change the dialect: the dict is shared by every
+    feature of a database, so a mutation changes how later features print."""
+    bad = []
+    # names that alias (parts of) the dialect: x = dialect[...] / x = dialect
+    tainted = {"dialect"}
+    changed = True
+    while changed:
+        changed = False
+        for n in ast.walk(rc.node):
+            if isinstance(n, ast.Assign) and len(n.targets) == 1 and isinstance(n.targets[0], ast.Name) and n.targets[0].id not in tainted:
+                b = n.value
+                while isinstance(b, (ast.Attribute, ast.Subscript)):
+                    b = b.value
+                if isinstance(b, ast.Name) and b.id in tainted and isinstance(n.value, (ast.Name, ast.Subscript, ast.Attribute)):
+                    tainted.add(n.targets[0].id)
+                    changed = True
+    for n in ast.walk(rc.node):
+        tg = n.targets if isinstance(n, ast.Assign) else [n.target] if isinstance(n, (ast.AugAssign, ast.AnnAssign)) else n.targets if isinstance(n, ast.Delete) else []
+        for t in tg:
+            b = t
+            while isinstance(b, (ast.Attribute, ast.Subscript)):
+                b = b.value
+            if isinstance(b, ast.Name) and b.id in tainted and not isinstance(t, ast.Name):
+                bad.append(n)
+        if isinstance(n, ast.Call) and isinstance(n.func, ast.Attribute) and n.func.attr in MUTATORS:
+            b = n.func.value
+            while isinstance(b, (ast.Attribute, ast.Subscript)):
+                b = b.value
+            if isinstance(b, ast.Name) and b.id in tainted:
+                bad.append(n)
+    ctx.ob(rule, not bad, "printing never mutates the dialect it is given (the database's dialect object is shared by all its features)", func=rc,
+           node=(bad[0] if bad else rc.node), sig="_reconstruct leaves the dialect untouched" if not bad else "_reconstruct mutates the dialect: %s" % norm(bad[0])[:70])
+
+
+def r_printer(ctx, rule="R6"):
+    """Printer template: the string _reconstruct builds for a symbolic mapping equals the template the dialect denotes,
+    for every dialect configuration."""
+    from .. import printer
+    from ..absint import Unsupported
+    rc = require_func(ctx, "parser._reconstruct")
+    n = bad = 0
+    reported = set()
+    for cfg in printer.configs(ctx.tier):
+        label = "fmt=%s repeated=%s quoted=%s trailing=%s fieldsep=%r kvsep=%r ignore_escapes=%s" % (
+            cfg["fmt"], cfg["repeated keys"], cfg["quoted GFF2 values"], cfg["trailing semicolon"], cfg["field separator"], cfg["keyval separator"], cfg["_ignore"])
+        traces = printer.run(ctx, rc, cfg)
+        exp = printer.spec_tokens(cfg)
+        for t in traces:
+            n += 1
+            problem = None
+            if t.result[0] != "return":
+                problem = "raises %s" % t.result[1]
+            else:
+                try:
+                    got = printer.tokens_of(t.result[1])
+                    if got != exp:
+                        problem = "prints %s, the dialect denotes %s" % (printer.show(got), printer.show(exp))
+                except ValueError as e:
+                    problem = str(e)
+            if problem:
+                bad += 1
+                # key the finding by the kind of difference, not by the configuration
+                kind = _diff_kind(problem)
+                if kind not in reported:
+                    reported.add(kind)
+                    ctx.ob(rule, False, "for every dialect configuration the printed attribute column of {k1:[v1,v2], k2:[v3], k3:[]} is the template the "
+                           "dialect denotes (separators, quoting, repeated keys, per-character encoding of every value, trailing semicolon)", func=rc,
+                           sig="printer template: %s" % kind, detail="%s :: %s" % (label, problem))
+    ctx.extra["printer_configurations"] = n
+    ctx.ob(rule, bad == 0, "printer template evaluated on %d dialect configurations" % n, func=rc,
+           sig="printer templates agree with the dialect in all configurations" if bad == 0 else "printer template differs in %d configurations" % bad, nontrivial=True)
+
+
+def _diff_kind(problem):
+    if "prints" not in problem:
+        return problem[:80]
+    got, exp = problem.split(", the dialect denotes ")
+    got = got.replace("prints ", "")
+    import re as _re
+    g_raw, e_raw = set(_re.findall(r"‹(\w+)›", got)), set(_re.findall(r"‹(\w+)›", exp))
+    g_enc, e_enc = set(_re.findall(r"‹%(\w+)›", got)), set(_re.findall(r"‹%(\w+)›", exp))
+    if g_enc != e_enc or g_raw != e_raw:
+        return "values encoded %s / raw %s, expected encoded %s / raw %s" % (sorted(g_enc), sorted(g_raw), sorted(e_enc), sorted(e_raw))
+    strip = lambda x: _re.sub(r"‹%?\w+›", "_", x)
+    return "separators/quoting differ: %s vs %s" % (strip(got), strip(exp))
+
+
+def decoder_names(ctx, sk):
+    """Names of the nested helpers of _split_keyvals that percent-decode."""
+    out = set()
+    for g in [g for lst in sk.nested.values() for g in lst]:
+        for c in calls_in(g.node):
+            d = ctx.proj.dotted(c.func, g.module, g) or ""
+            if d.startswith("urllib") and d.split(".")[-1] in ("unquote", "unquote_plus", "unquote_to_bytes"):
+                out.add(g.name)
+    return out
+
+
+def r_decode_layer(ctx, rule="R4"):
+    """Decoding is the last parsing layer: applied to each value separately, the decoded text is never split again, and it is
+    decided only after inference has fixed the format."""
+    sk = require_func(ctx, "parser._split_keyvals")
+    pool = [sk] + [g for lst in sk.nested.values() for g in lst]
+    decs = []
+    for f in pool:
+        for c in calls_in(f.node):
+            d = ctx.proj.dotted(c.func, f.module, f) or ""
+            if d.startswith("urllib") and d.split(".")[-1] in ("unquote", "unquote_plus", "unquote_to_bytes"):
+                decs.append((f, c))
+    ctx.ob(rule, len(decs) >= 1, "the parser percent-decodes values", func=sk, sig="%d decode call(s)" % len(decs), nontrivial=False)
+    for f, c in decs:
+        comp = enclosing(c, (ast.ListComp, ast.GeneratorExp))
+        elementwise = comp is not None and len(c.args) >= 1 and isinstance(c.args[0], ast.Name) and \
+            any(isinstance(g.target, ast.Name) and g.target.id == c.args[0].id for g in comp.generators)
+        if not elementwise:
+            lp = enclosing(c, ast.For)
+            elementwise = lp is not None and len(c.args) >= 1 and isinstance(c.args[0], ast.Name) and isinstance(lp.target, ast.Name) and lp.target.id == c.args[0].id
+        ctx.ob(rule, elementwise, "each value is decoded on its own (decoding a joined string would let an escaped separator split it)", node=c, func=f,
+               sig="decode applied per value" if elementwise else "decode applied to %s" % (norm(c.args[0]) if c.args else "?"))
+        if f is not sk:
+            splits = [x for x in calls_in(f.node) if call_attr(x) in ("split", "rsplit", "partition", "splitlines")]
+            ctx.ob(rule, not splits, "decoded text is never split again", node=(splits[0] if splits else f.node), func=f,
+                   sig="no split in the decoder" if not splits else "decoder splits: %s" % norm(splits[0]))
+    # decided after the format is final: no store to dialect['fmt'] reachable after a decode (or decoder call) in the main function
+    cfg = cfg_of(sk)
+    dec_nodes = []
+    names = {f.name for f, _c in decs if f is not sk}
+    for c in calls_in(sk.node):
+        if (isinstance(c.func, ast.Name) and c.func.id in names) or any(c is x for f, x in decs if f is sk):
+            dec_nodes.append(c)
+    fmt_stores = [n for n in ast.walk(sk.node) if isinstance(n, ast.Assign) and isinstance(n.targets[0], ast.Subscript)
+                  and norm(n.targets[0].value) == "dialect" and const_str(n.targets[0].slice) == "fmt" and enclosing(n, ast.FunctionDef) is sk.node]
+    for c in dec_nodes:
+        cn = cfg.node_for(c)
+        late = [n for n in fmt_stores if cfg.node_for(n).id in cfg.reachable(cn.id)]
+        ctx.ob(rule, not late, "whether to decode is decided after inference has fixed the format (no later assignment of dialect['fmt'])", node=c, func=sk,
+               sig="decode after the format is final" if not late else "format still assigned (line %d) after values were decoded" % late[0].lineno)
+    ctx.ob(rule, len(dec_nodes) >= 2, "both parsing paths decode", func=sk, sig="%d decoding site(s) in _split_keyvals" % len(dec_nodes), nontrivial=False)
 
 
 def r2_r3(ctx):
@@ -93,6 +238,19 @@ def r2_r3(ctx):
         for c in [c for c in ast.walk(prov) if isinstance(c, ast.Call) and call_attr(c) == "split" and c.args and norm(c.func.value) == "val"]:
             ok = const_str(c.args[0]) == mv or norm(c.args[0]) == "dialect['multival separator']"
             ctx.ob("R3", ok, "with a supplied dialect values are split on the multi-value separator", node=c, func=sk, sig="provided-dialect multi-value split on %s" % norm(c.args[0]))
+    if prov is not None:
+        local = {}
+        for n in ast.walk(prov):
+            if isinstance(n, ast.Assign) and isinstance(n.targets[0], ast.Name) and isinstance(n.value, ast.Subscript) and norm(n.value.value) == "dialect":
+                local[n.targets[0].id] = const_str(n.value.slice)
+        fs = [c for c in ast.walk(prov) if isinstance(c, ast.Call) and call_attr(c) == "split" and norm(c.func.value) == "keyval_str"]
+        ok = bool(fs) and all(c.args and (norm(c.args[0]) == "dialect['field separator']" or local.get(getattr(c.args[0], "id", None)) == "field separator") for c in fs)
+        ctx.ob("R3", ok, "with a supplied dialect the column is split on the dialect's field separator", node=prov, func=sk,
+               sig="provided-dialect field split on %s" % ([norm(c.args[0]) if c.args else "whitespace" for c in fs] or None))
+        kvs = [c for c in ast.walk(prov) if isinstance(c, ast.Call) and call_attr(c) == "split" and norm(c.func.value) in ("p", "p.strip()")]
+        ok = bool(kvs) and all(c.args and (norm(c.args[0]) == "dialect['keyval separator']" or local.get(getattr(c.args[0], "id", None)) == "keyval separator") for c in kvs)
+        ctx.ob("R3", ok, "with a supplied dialect key and value are split on the dialect's key/value separator (not on arbitrary whitespace)", node=prov, func=sk,
+               sig="provided-dialect key/value split on %s" % (sorted({norm(c.args[0]) if c.args else "whitespace" for c in kvs}) or None))
     q_strip = set()
     for n in ast.walk(sk.node):
         if isinstance(n, ast.Compare) and norm(n.left) in ("val[0]", "val[-1]") and const_str(n.comparators[0]) is not None:
@@ -165,7 +323,9 @@ def r4(ctx):
         ("key/value split", find(lambda n: isinstance(n, ast.Call) and call_attr(n) == "split" and n.args and const_str(n.args[0]) in ("=", " "))),
         ("quote strip", find(lambda n: isinstance(n, ast.Assign) and is_name(n.targets[0], "val") and norm(n.value) == "val[1:-1]")),
         ("multi-value split", find(lambda n: isinstance(n, ast.Call) and call_attr(n) == "split" and norm(n.func.value) == "val")),
-        ("percent-decoding", find(lambda n: isinstance(n, ast.Call) and is_name(n.func, "_unquote_quals"))),
+        ("percent-decoding", find(lambda n: isinstance(n, ast.Call) and (
+            (isinstance(n.func, ast.Name) and n.func.id in decoder_names(ctx, sk)) or
+            (ctx.proj.dotted(n.func, sk.module, sk) or "").startswith("urllib")))),
     ]
     for name, n in psteps:
         ctx.ob("R4", n is not None, "parsing has a %s step" % name, func=sk, sig="parse step %s %s" % (name, "present" if n is not None else "missing"), nontrivial=False)
@@ -197,6 +357,8 @@ def check(ctx):
     r1(ctx)
     r2_r3(ctx)
     r4(ctx)
+    r_decode_layer(ctx)
+    r_printer(ctx)
     from . import c01
     n0 = len(ctx.obs)
     c01.r5(ctx)
